@@ -4,11 +4,17 @@ Digest instance: `D := Vec`, `digest := id` (injective by construction; the theo
 exactly injectivity).
 -/
 import Driver.Parse
+import Driver.StoreEng
 
 namespace Driver.Tiered
 open KyroModel Driver
 
 abbrev S := TState Vec
+
+/-- driver state: engine model + observed `parse::<f64>` table -/
+structure DS where
+  ts : S
+  nums : List (String × Nat)
 def dg : Vec → Vec := id
 
 def showTier : Tier → String
@@ -35,7 +41,7 @@ def parseBulkDocs (s : String) : Option (List (Nat × Vec × Meta × Bool)) :=
       pure (i, v, m, a)
     | _ => none
 
-def step (st : Option S) (line : String) : Option S × String :=
+def stepCore (st : Option S) (line : String) : Option S × String :=
   let (op, fs) := splitFields line
   match op, st with
   | "cfg", _ =>
@@ -130,5 +136,24 @@ def step (st : Option S) (line : String) : Option S × String :=
     (st, "[" ++ ";".intercalate ((sortById s.cold).map fun (id, d) =>
       s!"{id}~{showNatList d.vec}~{showMeta d.md}") ++ "]")
   | _, _ => (st, "bad-op")
+
+def step (st : Option DS) (line : String) : Option DS × String :=
+  let (op, fs) := splitFields line
+  let nums0 := (st.map (·.nums)).getD []
+  let nums := StoreEng.addNums nums0 ((field? fs "nums").getD "-")
+  match op, st with
+  | "delete_by_filter", some d =>
+    match field? fs "f" with
+    | some f =>
+      match StoreEng.parseFilter 10000 (f.splitOn ",") with
+      | some (flt, []) =>
+        let parse : String → Option Nat := fun x => (nums.find? (·.1 == x)).map (·.2)
+        let (s', n) := deleteByFilter parse d.ts flt
+        (some ⟨s', nums⟩, toString n)
+      | _ => (st, "bad-op:filter")
+    | none => (st, "bad-op")
+  | _, _ =>
+    let (s', out) := stepCore (st.map (·.ts)) line
+    (s'.map fun t => ⟨t, if op == "cfg" then [] else nums⟩, out)
 
 end Driver.Tiered
